@@ -19,6 +19,6 @@ for d in sorted(os.listdir(src)):
         shutil.copy2(os.path.join(p, f), os.path.join(dst, f))
     m = json.load(open(os.path.join(dst, "meta.json")))
     m.setdefault("kind", "harmless" if "_H" in d else "breaking")
-    m["round"] = 3
+    m["round"] = int(os.environ.get("SEED_ROUND", "4"))
     json.dump(m, open(os.path.join(dst, "meta.json"), "w"), indent=1)
     print("imported", d, m["kind"])
